@@ -56,3 +56,88 @@ def _place(body, al, place, out, work):
     work.append(place.local)
     if root != place.local:
         work.append(root)
+
+
+def deep_sources(prog, mod, body, local, depth=3, _seen=None):
+    """Backward value slice that also descends into the return value of crate-local callees
+    (depth-limited).  Leaves carry the body they were found in:
+       ('call', Term, bb, body_q)   ('place', (root, fields), body_q)   ('const', repr, body_q)
+       ('op', opname, const_int or None, body_q)"""
+    _seen = _seen if _seen is not None else set()
+    key = (body.q, local)
+    if key in _seen:
+        return []
+    _seen.add(key)
+    al = mod.aliases(body.q)
+    out = []
+    seen = set()
+    work = [local]
+    n = 0
+    while work and n < 400:
+        l = work.pop()
+        if l in seen:
+            continue
+        seen.add(l)
+        n += 1
+        if 1 <= l <= body.nargs:
+            out.append(('param', l, body.q))
+            continue
+        defs_l = body.defs.get(l, [])
+        if body.locals[l] == 'bool' and len(defs_l) > 1:
+            # short-circuit `&&` / `||`: the value is decided by the branches that select which
+            # assignment runs; add the conditions of the switches just above each assignment
+            for (dbb, _, _) in defs_l:
+                frontier = [dbb]
+                seen_b = {dbb}
+                for _step in range(8):
+                    nxt = []
+                    for x in frontier:
+                        for p in body.preds.get(x, []):
+                            if p in seen_b:
+                                continue
+                            seen_b.add(p)
+                            nxt.append(p)
+                            tp = body.blocks[p].term
+                            if tp.k == 'switch' and tp.discr.place is not None and tp.discr.place.is_local():
+                                work.append(tp.discr.place.local)
+                    frontier = nxt
+        for (bb, idx, node) in defs_l:
+            if idx == 'term':
+                out.append(('call', node, bb, body.q))
+                name = node.resolved or node.callee or ''
+                if depth > 0 and name in prog.bodies:
+                    out += deep_sources(prog, mod, prog.bodies[name], 0, depth - 1, _seen)
+                for o in node.args:
+                    if o.place is not None:
+                        _dplace(body, al, o.place, out, work)
+                    else:
+                        out.append(('const', repr(o), body.q))
+                        if o.const and 'closure' in o.const and depth > 0 and o.const['closure'] in prog.bodies:
+                            out += deep_sources(prog, mod, prog.bodies[o.const['closure']], 0, depth - 1, _seen)
+            else:
+                rv = node.rv
+                if rv.k == 'bin':
+                    ci = None
+                    for o in rv.ops:
+                        if o.int_value() is not None:
+                            ci = o.int_value()
+                    out.append(('op', rv.raw['op'], ci, body.q))
+                if rv.k == 'agg' and rv.raw.get('ak') == 'closure' and depth > 0 and rv.raw['def'] in prog.bodies:
+                    out += deep_sources(prog, mod, prog.bodies[rv.raw['def']], 0, depth - 1, _seen)
+                for o in rv.ops:
+                    if o.place is not None:
+                        _dplace(body, al, o.place, out, work)
+                    else:
+                        out.append(('const', repr(o), body.q))
+                if rv.place is not None:
+                    _dplace(body, al, rv.place, out, work)
+    return out
+
+
+def _dplace(body, al, place, out, work):
+    root, fields, derefd = al.norm(place)
+    if fields:
+        out.append(('place', (root, fields), body.q))
+    work.append(place.local)
+    if root != place.local:
+        work.append(root)
